@@ -369,8 +369,8 @@ def check_property(prop: str, tier: str, only: str | None, jobs: int, ctx: Ctx |
             log(f"[{prop}] {r['name']}: {r['verdict']} wall={r.get('wall_s')}s solver={r.get('solver_s')}s "
                 f"covers={r.get('covers_satisfied')}/{r.get('covers_total')} {r.get('detail', '')}")
     by_name = {h["name"]: h for h in hs}
-    violations, known_lines, inconclusive, infra = [], [], [], []
-    for r in results:
+    violations, known_lines, inconclusive, infra, unreplayed = [], [], [], [], []
+    for r in sorted(results, key=lambda r: by_name[r["name"]]["timeout"]):
         if r["verdict"] == "pass":
             continue
         if r["verdict"] == "failed":
@@ -389,6 +389,13 @@ def check_property(prop: str, tier: str, only: str | None, jobs: int, ctx: Ctx |
                     known_lines.append((e, r))
                     continue
                 log(f"[{prop}] {r['name']}: native witness {e['native_witness']} did NOT confirm ({detail}); full replay")
+            if violations:
+                # one natively confirmed violation already decides the exit code; trace generation for
+                # every further failing harness would cost 4-10x its run time each
+                log(f"[{prop}] {r['name']}: solver also found a model for: {descs[:4]} -- not replayed (a violation is already confirmed)")
+                r["replay"] = {"reproduced": False, "path": None, "detail": "not replayed: another violation of this property was already confirmed natively"}
+                unreplayed.append(r)
+                continue
             log(f"[{prop}] {r['name']}: solver found a model for: {descs[:4]} -- replaying natively")
             pb = playback(ctx, h, logdir, prop)
             r["replay"] = pb
@@ -406,6 +413,8 @@ def check_property(prop: str, tier: str, only: str | None, jobs: int, ctx: Ctx |
     for r in violations:
         log(f"VIOLATION property={prop} replay={r['replay']['path']}")
         log(f"  harness {r['name']}: {sorted({f['description'] for f in r['failures']})[:4]}; native: {r['replay']['detail']}")
+    for r in unreplayed:
+        log(f"ALSO-FAILING property={prop} harness={r['name']}: {sorted({f['description'] for f in r['failures']})[:3]} (not replayed)")
     for r in inconclusive:
         log(f"INCONCLUSIVE property={prop} harness={r['name']}: solver model does not reproduce natively ({r['replay']['detail']})")
     for r in infra:
